@@ -39,8 +39,8 @@ def sources(state):
         "main.go": "package main\n\nimport (\n\t\"fmt\"\n\n\t\"%s/lib\"\n)\n\nvar version = \"unset-default-version\"\n\ntype cfg struct {\n\tName string\n\tlevel int\n}\n\nfunc main() {\n\tc := cfg{\"main-literal-value-%d\", %d}\n\tfmt.Println(version, c.Name, c.level, lib.Describe(), extra())\n}\n" % (MODP, v("main"), v("main")),
         "extra.go": "//go:build !verift\n\npackage main\n\nfunc extra() string { return \"without-tag\" }\n",
         "extra_tag.go": "//go:build verift\n\npackage main\n\nfunc extra() string { return \"with-tag-verift\" }\n",
-        "lib/lib.go": "package lib\n\nimport (\n\t\"encoding/json\"\n\n\t\"%s/lib/leaf\"\n)\n\ntype Info struct {\n\tTitle string\n\tCount int\n}\n\nfunc Describe() string {\n\tb, _ := json.Marshal(Info{\"lib-literal-value-%d\", leaf.Count() + %d})\n\treturn string(b)\n}\n" % (MODP, v("lib"), v("lib")),
-        "lib/leaf/leaf.go": "package leaf\n\nvar counter = %d\n\nfunc Count() int { return counter + len(\"leaf-literal-value-%d\") }\n" % (10 + v("leaf"), v("leaf")),
+        "lib/lib.go": "package lib\n\nimport (\n\t\"encoding/json\"\n\t\"reflect\"\n\n\t\"%s/lib/leaf\"\n)\n\ntype Info struct {\n\tTitle string\n\tCount int\n}\n\nfunc Describe() string {\n\tb, _ := json.Marshal(Info{\"lib-literal-value-%d\", leaf.Count() + %d})\n\treturn string(b) + reflect.TypeOf(Info{}).Name() + reflect.TypeOf(leaf.Rec{}).Name()\n}\n" % (MODP, v("lib"), v("lib")),
+        "lib/leaf/leaf.go": "package leaf\n\ntype Rec struct{ LeafField int }\n\nvar counter = %d\n\nfunc Count() int { return counter + len(\"leaf-literal-value-%d\") }\n" % (10 + v("leaf"), v("leaf")),
     }
 
 def do_build(gc, gcache, srcdir, cfgname, out, verbose=False):
@@ -50,7 +50,8 @@ def do_build(gc, gcache, srcdir, cfgname, out, verbose=False):
     return gg.garble(fl, "build", args, srcdir, extra_env=env or None, tmpdir=os.path.join(os.path.dirname(gc), "tmp"))
 
 log("preparing base caches for %d configurations" % len(names))
-bases = dict(zip(names, pmap(lambda n: ensure_base(g, ALPHA[n][0], ALPHA[n][1], ALPHA[n][2]), names, workers=3)))
+FATX = {"lib/lib.go": "package lib\n\nfunc Touch() int { return 1 }\n", "touch.go": "package main\n\nimport \"%s/lib\"\n\nvar _ = lib.Touch\n" % MODP}
+bases = dict(zip(names, pmap(lambda n: ensure_base(g, ALPHA[n][0], ALPHA[n][1], ALPHA[n][2], modpath=MODP, extra_files=FATX), names, workers=3)))
 
 refs = {}
 def reference(cfgname, state_key):
@@ -117,7 +118,7 @@ def run_history(hi):
         res["stdout"] = exec_bin(os.path.join(d, "out")).stdout
         # an unchanged rebuild must recompile nothing
         again = do_build(gc, gcache, src, h[-1][1], os.path.join(d, "out2"), verbose=True)
-        res["rebuilt"] = [l for l in again.stderr.decode(errors="replace").split("\n") if l.strip() and not l.startswith("#")] if again.returncode == 0 else ["rebuild failed: " + short(again.stderr, 300)]
+        res["rebuilt"] = [l for l in again.stderr.decode(errors="replace").split("\n") if re.fullmatch(r"[A-Za-z0-9_./-]+", l.strip() or " ")] if again.returncode == 0 else ["rebuild failed: " + short(again.stderr, 300)]
         res["sha2"] = sha256_file(os.path.join(d, "out2")) if again.returncode == 0 else None
     shutil.rmtree(d, ignore_errors=True)
     return res
